@@ -652,6 +652,39 @@ func c17Gate(r *vfkit.R, rng *rand.Rand) {
 		if !rejected || globals.sessionStore.Get("grpGate-b") != nil {
 			r.Violation("gate-topicmaster-accepted", fmt.Sprintf("TopicMaster request carrying the signature of ring %q was accepted by a node whose ring is [a b c] (rejected=%v)", other, rejected), nil)
 		}
+		// an established multiplexing session does not exempt later traffic from the gate: the proxy attaches while
+		// the rings agree, this node's ring changes, the proxy keeps sending with its old signature
+		{
+			tn := fmt.Sprintf("grpGateEst%dx%d", r.Batch(), i)
+			oldSig := a.ring.Signature()
+			req := func(sig string) *ClusterReq {
+				return &ClusterReq{Node: "b", Signature: sig, RcptTo: tn, ReqType: ProxyReqMeta,
+					CliMsg: &ClientComMessage{Get: &MsgClientGet{Topic: tn, MsgGetQuery: MsgGetQuery{What: "desc"}}, Original: tn, RcptTo: tn, AsUser: "usrNobody"},
+					Sess:   &ClusterSess{Sid: "gate-sess"}}
+			}
+			rejected = true
+			a.TopicMaster(req(oldSig), &rejected)
+			ms := globals.sessionStore.Get(tn + "-b")
+			if rejected || ms == nil {
+				r.Inconclusive("c17 gate: in-sync request did not establish a multiplexing session")
+			} else {
+				a.rehash(other)
+				for _, rt := range []ProxyReqType{ProxyReqMeta, ProxyReqLeave, ProxyReqMeta} {
+					rq := req(oldSig)
+					rq.ReqType = rt
+					rejected = false
+					a.TopicMaster(rq, &rejected)
+					r.Hit("stale_signature_on_established_session_refused")
+					if !rejected {
+						r.Violation("gate-topicmaster-accepted:established-session", fmt.Sprintf("TopicMaster request (type %d) with the signature of ring [a b c] was accepted through an established multiplexing session by a node whose ring is now %q", rt, other), nil)
+					}
+				}
+				a.rehash([]string{"a", "b", "c"})
+			}
+			if ms != nil {
+				globals.sessionStore.Delete(ms)
+			}
+		}
 		// and the matching signature passes
 		rejected = true
 		a2 := mk("b", []string{"c", "a", "b"})
